@@ -35,14 +35,19 @@ Two points of M-Notify that shape the statements:
 
 Proved here, for ARBITRARY patterns of object-scoped holds (any counts, with or without a queued
 `Changed`) and object-scoped disables, on chain nodes and elsewhere, and any fuel ≥ chain length:
-  `post_sim`         the induction on the chain: `post Changed x` in a wired, armed centre is `announce`
-  `touch_simulates`, `release_simulates`, `hold_simulates`, `disable_simulates`
-  `*_registry`       the registry (hence the wiring) is unchanged by these executions; `Wired` is
-                     preserved (part of each `*_simulates`)
-  `wiring_wired`     the canonical wired centre of a chain is `Wired`, and `wiring_eq_adds`: it is what
-                     the `addObserver` calls build from the empty centre.
-Remaining work (not needed for C02's statement): observer-scoped and name-scoped holds/disables are
-outside `Shape` (M-Dirty has no counterpart for them); `enable` has no M-Dirty operation.
+  `post_sim`          the induction on the chain: `post Changed x` in a wired, armed centre is `announce`
+  `release_sim`       `release (None, x, None)` is M-Dirty's `release` (count down / erase / re-post the queue)
+  `touch_simulates`, `release_simulates` (for `x` = any node of the wired chain, `rest` = the chain above it),
+  `hold_simulates`, `disable_simulates` (any object)
+  `wiring_invariant`  the registry (hence the wiring) is unchanged by these executions and `Wired` is preserved
+  `sim_abs`, `sim_iff_eqv`, `abs_touch`, `abs_release`   the functional reading `abs ∘ cOp ≈ Dirty.op ∘ abs`
+  `wiring_wired`      the canonical wired centre of a chain of distinct nodes is `Wired`; `wiring_eq_adds`: it
+                      is what the `addObserver` calls build from the empty centre.
+The corollaries for C02 are in `Link/DirtyNotifyProps.lean`.
+Remaining work (not needed for C02's statement): a TREE of chains sharing their upper parts (here: one
+chain and its upper parts; holds/disables on objects off the chain are allowed but never released);
+observer-scoped and name-scoped holds/disables are outside `Shape` (M-Dirty has no counterpart for
+them); `enable` has no M-Dirty operation; dead (collected) chain objects are excluded by `Wired`.
 
 Core Lean only.
 -/
